@@ -81,6 +81,7 @@ PROPS = {
             {'template': 'units/c07_binop_plan.rs.in', 'modes': [[]], 'canary': True},
             {'template': 'units/c07_checker.rs.in', 'modes': [[]], 'canary': True},
             {'template': 'units/c07_compound_tables.rs.in', 'modes': [[]], 'canary': True},
+            {'template': 'units/c07_compound_check.rs.in', 'modes': [[]], 'canary': True},
         ],
         'kani': [],
         'not_covered': [
